@@ -35,12 +35,13 @@ def main():
     checks = (args.checks.split(',') if args.checks else meta.get('checks') or [meta['property']])
     wt = Path(f'/var/tmp/fjverif-seeded-{os.getpid()}')
     sh(['git', '-C', '/repo', 'worktree', 'prune'])
-    r = sh(['git', '-C', '/repo', 'worktree', 'add', '--detach', str(wt), 'HEAD'])
+    base = meta.get('base_commit') or 'HEAD'
+    r = sh(['git', '-C', '/repo', 'worktree', 'add', '--detach', str(wt), base])
     if r.returncode:
         print(r.stderr)
         return 2
     result = {'seeded': d.name, 'property': meta['property'], 'tier': args.tier, 'repo_head': sh(
-        ['git', '-C', '/repo', 'rev-parse', '--short', 'HEAD']).stdout.strip(), 'checks': {}}
+        ['git', '-C', '/repo', 'rev-parse', '--short', 'HEAD']).stdout.strip(), 'base_commit': base, 'checks': {}}
     try:
         out = Path(f'/var/tmp/fjverif-seeded-out-{os.getpid()}')
         out.mkdir(exist_ok=True)
